@@ -4,6 +4,7 @@ import os
 import re
 
 from harness import core, regen, retrans, textgen
+from harness.coqemit import s as E_s
 
 LEVEL_TEXT = (
     "proof: a required-literal analysis (Regex/Literal.v) proved sound w.r.t. a declarative regex semantics "
@@ -82,6 +83,7 @@ def run(ctx):
     idxs = list(range(len(EXTRACTORS)))
     if not th:
         idxs = rng.sample(idxs, 500) + idxs[-5:]
+    rx_words = []
     for idx in idxs:
         e = EXTRACTORS[idx]
         if not e.strings:
@@ -94,6 +96,8 @@ def run(ctx):
                 w = textgen.mutate(rng, w)
             w = rng.choice(["", " ", "See ", "x"]) + w + rng.choice(["", " ", ".", " y"])
             m = e.compiled_regex.search(w)
+            if k < 2 and len(w) < 80:
+                rx_words.append((idx, w, m))
             ctx.case("words", (idx, w), bool(m), dict(extractor=idx, word=w, strings=e.strings[:3]) if m and len(ctx.samples) < 5 else None)
             ctx.count("word matched by its pattern" if m else "word not matched")
             if not m:
@@ -104,6 +108,24 @@ def run(ctx):
                               f"extractor #{idx} matches the text but the Aho-Corasick filter skips it",
                               dict(stream="words", extractor=idx, text=w, strings=e.strings[:5]))
     ctx.streams.append("words")
+    # ---- regex stream: the engine model on the regenerated extractor ASTs vs the compiled patterns
+    per = (len(EXTRACTORS) + 15) // 16
+    by_shard = {}
+    for idx, w, m in rx_words:
+        exp = "None" if m is None else f"(Some ({m.start()}, {m.end()}, Some ({m.start(1)}, {m.end(1)})))"
+        by_shard.setdefault(idx // per, []).append((f"({idx}%N, {E_s(w)})", exp, dict(stream="regex", extractor=idx, word=w,
+                                                                                   python=None if m is None else (m.span(), m.span(1)))))
+    for k, cs_ in sorted(by_shard.items()):
+        pre = (f"From EV Require Import Base.Str Base.Corr Regex.Syntax Regex.Decl Regex.Match Regex.C13Check Gen.Unicode Gen.Extractors_{k:02d}.\n"
+               "From Coq Require Import NArith.\nOpen Scope nat_scope.\n"
+               f"Definition rx13 (c : N * str) : option (nat * nat * option (nat * nat)) :=\n"
+               f"  match find (fun x => N.eqb (row_idx x) (fst c)) shard_{k:02d} with\n"
+               "  | Some x => match search U (row_ci x) (snd c) (row_re x) with\n"
+               "              | Some (i, j, cp) => Some (i, j, cap_get 1 cp)\n              | None => None end\n"
+               "  | None => Some (0, 0, None)\n  end.\n"
+               "Definition rx13_eqb := opt_eqb (pair_eqb (pair_eqb Nat.eqb Nat.eqb) (opt_eqb (pair_eqb Nat.eqb Nat.eqb))).\n")
+        core.corr_run(ctx, f"rx13_{k:02d}", pre, "rx13", "rx13_eqb", cs_, shard=200, ty=("N * str", "option (nat * nat * option (nat * nat))"))
+    ctx.streams.append("regex")
 
     # ---- corpus: the known finding's witnesses (must stay classified, never silently disappear)
     for w in ["Foo, ſupra, at 5", "ıd. at 5", "İd. at 5", "ſee 1 U.S. 1"]:
